@@ -41,9 +41,9 @@ for n in sorted(os.path.basename(os.path.dirname(p)) for p in glob.glob(V + "/" 
         cells.append(c + ("ᶠ" if x is not None and x.get("full") else ""))
     rows.append("| %s | %s | %s |" % (n, m["breaks_property"], " | ".join(cells)))
 with open(V + "/" + SD + "/MATRIX.md", "w") as f:
-    f.write("# Seeded changes x checks (quick tier)\n\n"
+    f.write(("# %s x checks (quick tier)\n\n" % ("Seeded changes" if SD == "seeded" else "Behaviour-preserving refactorings")) +
             "**V** = check exits 1 with a VIOLATION line, – = check exits 0 (held), inc = inconclusive (exit 2), · = not run.\n"
-            "Cells come from runs with a fifth of the quick budget and the dbg/rel variants only (`VERIF_SCALE=0.2 VERIF_ONLY_DBG=1`);\n"
+            "Cells come from runs with a fraction of the quick budget (seeded/: a fifth, refactors/: three tenths) and the dbg/rel variants only (`VERIF_SCALE=… VERIF_ONLY_DBG=1`);\n"
             "cells marked ᶠ were re-run with the full quick budget of the final code (the scaled budget of some checks, C10 in\n"
             "particular, does not reach their later workloads). An `inc` in a column other than the target usually means that the\n"
             "changed builder rejected or panicked on valid collections, which only C10 (and C08) treat as a refuting event.\n\n")
